@@ -1,6 +1,7 @@
 """C06 — committed offsets are marked offsets, and no mark is lost (offset_manager.go)."""
 import glob
 import os
+import threading
 
 from decgen_tie import run_decgen
 
@@ -9,7 +10,8 @@ def run(c):
     c.rule = ("operation sequences on a real OffsetManager against a scripted coordinator: corpus witnesses, every sequence "
               "of length <= depth over a 25-symbol alphabet (Mark/Reset lo-mid-hi, AsyncClose, Commit x verdict class x window ops "
               "x ops before releasePOMs, Close x attempt scripts) on one partition, sampled sequences of length 3-5 on 1-2 "
-              "partitions, seeded random sequences up to length 40 on 1-3 partitions; a case is non-trivial when at least one "
+              "partitions, seeded random sequences up to length 40 on 1-3 partitions; plus (monitor only) consumer-group sessions whose handler "
+              "marks/resets from Setup, ConsumeClaim and Cleanup, ended by cancelling Consume; a case is non-trivial when at least one "
               "Mark/Reset call is made and at least one OffsetCommit request reaches the coordinator; distinct = distinct (script, observation) JSON")
     c.trust("correspondence harness go/harness/cmd/c06corr + go/shims/c06_shim.go (scripted coordinator on MockBroker, error-id and metadata-id encoding)")
     c.trust("Coq 8.16.1 kernel + vm_compute (evaluation of the model on the harness cases)")
@@ -29,9 +31,9 @@ def run(c):
     if not b:
         return
     if c.tier == "quick":
-        args = ["-depth", "2", "-nshort", "500", "-n", "250"]
+        args = ["-depth", "2", "-nshort", "500", "-n", "250", "-nsess", "40"]
     else:
-        args = ["-depth", "3", "-nshort", "6000", "-n", "6000"]
+        args = ["-depth", "3", "-nshort", "6000", "-n", "6000", "-nsess", "400"]
     args += os.environ.get("C06CORR_SELFTEST", "").split()     # harness self-test only: "-failcase N" / "-crashcase N"
     rc, out = c.run([b, "-out", c.build, "-seed", str(c.seed)] + args, timeout=2400)
     # a case the harness could not run (listener / connection could not be opened after all retries, unexpected panic inside a
@@ -40,6 +42,10 @@ def run(c):
         if l.startswith("HARNESSFAIL "):
             c.break_("corr", "c06corr: " + l[len("HARNESSFAIL "):].split(" script=", 1)[0] + " (case not run)", l)
     files = [l.split(" ", 1)[1] for l in out.splitlines() if l.startswith("CASEFILE ")]
+    # consumer-group session cases: the property checked directly on the implementation (monitor only, no model behind them)
+    for l in out.splitlines():
+        if l.startswith("SESSFILE "):
+            c.load_cases(l.split(" ", 1)[1])
     if rc != 0:
         # the harness process died: name the case it was running and still evaluate every shard it had completed
         culprit = ""
@@ -52,4 +58,30 @@ def run(c):
                        if os.path.exists(f[:-2] + ".jsonl"))
         if not files:
             return
-    c.eval_cases(files, name="offset manager correspondence")
+    # coqc writes a .glob of ~5 MB per case file (1.1 GB in the thorough tier; vlib.coqc has no -noglob): remove each one as soon
+    # as its file has been compiled, so that a run needs ~100 MB and does not fail on a nearly full disk
+    stop = threading.Event()
+
+    def reap():
+        while True:
+            for g in glob.glob(os.path.join(c.build, "cases_c06_*.glob")):
+                if os.path.exists(g[:-5] + ".vo"):
+                    try:
+                        os.remove(g)
+                    except OSError:
+                        pass
+            if stop.wait(1.0):
+                return
+    t = threading.Thread(target=reap, daemon=True)
+    t.start()
+    try:
+        c.eval_cases(files, name="offset manager correspondence")
+    finally:
+        stop.set()
+        t.join()
+        reap_last = glob.glob(os.path.join(c.build, "cases_c06_*.glob"))
+        for g in reap_last:
+            try:
+                os.remove(g)
+            except OSError:
+                pass
